@@ -579,6 +579,9 @@ class Machine:
                 return self.ev(n[1], env)
             except (Return, Break, Continue):
                 raise Unspec("control statement through eval")
+        if t == "rawerrv":
+            # ('rawerrv', source text, value): raises the given user value
+            raise LangError(copy.deepcopy(n[2]))
         if t == "rawerr":
             # ('rawerr', source text): an operation that fails inside the
             # host (overflow, ...) and must surface as the runtime 'ERROR'
@@ -1108,7 +1111,7 @@ def R(n, need, full):
         if n[2] is not None:
             s += " else " + if_body(n[2], full)
         return s
-    if t in ("raw", "rawerr"):
+    if t in ("raw", "rawerr", "rawerrv"):
         return n[1]
     if t == "evalstr":
         return "eval(" + lit(R(n[1], 0, full)) + ")"
